@@ -91,6 +91,22 @@ instance : Inhabited Val := ⟨.triv⟩
 instance : Inhabited Comp := ⟨.hole⟩
 instance : Inhabited SemVal := ⟨.triv⟩
 
+mutual
+  /-- number of nodes of a value (the fuel that always suffices without pure application) -/
+  def Val.size : Val → Nat
+    | .hole | .var _ | .triv | .lit _ => 1
+    | .vlet _ b t => b.size + t.size + 1
+    | .vabs _ b => b.size + 1
+    | .vapp f a => f.size + a.size + 1
+    | .thunk _ => 1
+    | .ctor _ a => a.size + 1
+    | .vcons items tail => Val.sizes items + tail.size + 1
+    | .proj h _ => h.size + 1
+  def Val.sizes : List Val → Nat
+    | [] => 0
+    | v :: vs => v.size + Val.sizes vs
+end
+
 abbrev Env := List (Nat × SemVal)
 
 /-- `Env::get` / `+=` (`im::HashMap`): the latest binding of a variable wins. -/
@@ -311,11 +327,15 @@ def argsToHV : Nat → List SemVal → Option (List HV)
 
 def vmFuel : Nat := 100000
 
+/-- Fuel for evaluating one value: its own size always suffices when it contains no pure
+application; `vmFuel` bounds the pure applications the correspondence ever runs. -/
+def valFuel (v : Val) : Nat := max vmFuel (v.size + 1)
+
 /-- `impl Eval for Computation::step`. -/
 def step (c : Comp) (st : State) : StepResult :=
   let stuck (s : Stuck) : StepResult := .done (.stuck s) st
   let value (v : Val) (k : SemVal → StepResult) : StepResult :=
-    match evalV vmFuel st.env v with
+    match evalV (valFuel v) st.env v with
     | .ok sv => k sv
     | .error s => stuck s
   match c with
